@@ -16,7 +16,7 @@ from checks import scenarios as S
 PROP = "C01"
 LEVEL = "proof"
 THEOREMS = {
-    "Proofs.Props.C01": ["MsPack.Cab.C01_headers_roundtrip"],
+    "Proofs.Props.C01": ["MsPack.Cab.C01_headers_roundtrip", "MsPack.Cab.C01_stored_extract"],
     "Proofs.Props.Tables": ["MsPack.TableObligations.lzx_extra_bits", "MsPack.TableObligations.lzx_position_base",
                             "MsPack.TableObligations.lzx_position_slots", "MsPack.TableObligations.qtm_extra_bits",
                             "MsPack.TableObligations.qtm_position_base", "MsPack.TableObligations.qtm_length_extra",
